@@ -27,8 +27,13 @@ struct PACKED Variable { int id; double desiredPosition, finalPosition, weight, 
                   _Bool visited; _Bool fixedDesiredPosition; struct vec in; struct vec out; };
 struct PACKED Constraint { struct Variable *left, *right; double gap, lm; long timeStamp; _Bool active; _Bool equality;
                     _Bool unsatisfiable; _Bool needsScaling; void *creator; };
+#ifdef FLAVOUR_AVOID   /* libavoid/vpsc.h: one non-virtual class */
+struct PACKED IncSolver { unsigned splitCnt; void *bs; size_t m; struct vec *cs; size_t n; struct vec *vs; _Bool needsScaling;
+                   struct vec inactive; struct vec violated; };
+#else
 struct PACKED IncSolver { void *vptr; void *bs; size_t m; struct vec *cs; size_t n; struct vec *vs; _Bool needsScaling;
                    unsigned splitCnt; struct vec inactive; struct vec violated; };
+#endif
 
 #define C(p) ((struct Constraint *)(p))
 #define V(p) ((struct Variable *)(p))
